@@ -45,7 +45,7 @@ pub fn run_case(case: &Value) -> (Vec<F>, String) {
     let other = w.ctx_b;
     // pre-history
     let p0 = w.append_c("pre0", ctx, None, None);
-    w.append_c("pre-other", other, None, None);
+    let pre_other = w.append_c("pre-other", other, None, None);
     if old_instance {
         // an earlier instance of the same name: its registration traffic and its output are history
         let old = w.append_c("h.register", ctx, Some(&script("tail")), None);
@@ -60,8 +60,18 @@ pub fn run_case(case: &Value) -> (Vec<F>, String) {
         let g = w.append_c("g.register", ctx, Some(&other_script()), None);
         w.wait(|f| f.topic == "g.registered" && meta_str(f, "handler_id") == Some(g.id.to_string()), 20.0).expect("harness: second handler");
     }
+    // a frame of the context that carries the stamp of some *other* handler: must be seen
+    let stamped = w.append_c("stamped", ctx, None, Some(json!({"handler_id": p0.id.to_string(), "frame_id": p0.id.to_string()})));
+    let _ = stamped;
+    // the resume point of `after`: the oldest frame, the newest one, or an id of another context
+    let after_id = match case["after"].as_str().unwrap_or("p0") {
+        "p1" => p1.id,
+        "other" => pre_other.id,
+        "last" => w.store.read_sync(None, None, Some(ctx)).last().map(|f| f.id).unwrap_or(p0.id),
+        _ => p0.id,
+    };
     let resume_s = match resume {
-        "after" => p0.id.to_string(),
+        "after" => after_id.to_string(),
         x => x.to_string(),
     };
     let pulse = case["pulse"].as_bool().unwrap_or(false);
@@ -73,11 +83,15 @@ pub fn run_case(case: &Value) -> (Vec<F>, String) {
         return (fs, "noreg".into());
     };
     // burst from two writers while the handler is busy, plus traffic in another context
+    let eph = case["eph"].as_bool().unwrap_or(false);
     let mut ths = vec![];
     for wi in 0..2 {
         let store = w.store.clone();
         ths.push(std::thread::spawn(move || {
             for k in 0..burst {
+                if eph {
+                    let _ = store.append(Frame::builder(format!("eph.w{}.{}", wi, k), ctx).ttl(xs::store::TTL::Ephemeral).build());
+                }
                 let _ = store.append(Frame::builder(format!("trigger.w{}.{}", wi, k), ctx).build());
                 let _ = store.append(Frame::builder(format!("foreign.w{}.{}", wi, k), other).build());
             }
@@ -123,10 +137,13 @@ pub fn run_case(case: &Value) -> (Vec<F>, String) {
         }
     }
     // expected: the context's stream after the resume point
-    let stream: Vec<Frame> = w.store.read_sync(None, None, Some(ctx)).collect();
+    // (ephemeral frames are not stored: they are taken from the observer's log)
+    let mut stream: Vec<Frame> = w.store.read_sync(None, None, Some(ctx)).collect();
+    stream.extend(log.iter().filter(|f| f.context_id == ctx && f.ttl == Some(xs::store::TTL::Ephemeral) && f.topic.starts_with("eph.")).cloned());
+    stream.sort_by_key(|f| f.id);
     let start_after: Option<Scru128Id> = match resume {
         "head" => None,
-        "after" => Some(p0.id),
+        "after" => Some(after_id),
         _ => Some(registered.id),
     };
     let mut required: Vec<String> = vec![];
@@ -203,7 +220,6 @@ pub fn run_case(case: &Value) -> (Vec<F>, String) {
     if thresholds != want_thr {
         fs.push(F { kind: "c14.threshold".into(), msg: format!("{}: invoked {} times for the threshold marker, expected {}", label, thresholds, want_thr) });
     }
-    let _ = p1;
     let outcome = format!("{}:{}:{}", resume, seen.len(), thresholds);
     w.stop();
     (fs, outcome)
@@ -215,10 +231,16 @@ pub fn cases(thorough: bool) -> Vec<Value> {
         for old in [false, true] {
             for second in [false, true] {
                 for burst in [0usize, 1, 3] {
-                    if !thorough && burst == 1 && (old || second) {
-                        continue;
-                    }
+                    let _ = thorough;
                     v.push(json!({"resume": resume, "old_instance": old, "second_handler": second, "burst": burst}));
+                    if burst > 0 {
+                        v.push(json!({"resume": resume, "old_instance": old, "second_handler": second, "burst": burst, "eph": true}));
+                    }
+                    if resume == "after" {
+                        for a in ["p1", "other", "last"] {
+                            v.push(json!({"resume": resume, "old_instance": old, "second_handler": second, "burst": burst, "after": a, "eph": burst == 3}));
+                        }
+                    }
                     if burst == 3 && !old {
                         // with heartbeats: pulses are extra invocations, never replacements
                         v.push(json!({"resume": resume, "old_instance": old, "second_handler": second, "burst": burst, "pulse": true}));
@@ -276,7 +298,7 @@ pub fn run(tier: &str, report: &mut Report) {
     report.cov("distinct_outcomes", json!(outcomes.len()));
     report.cov("exhaustive", json!(true));
     report.cov("samples", json!(cs.iter().step_by((cs.len() / 4).max(1)).take(4).collect::<Vec<_>>()));
-    report.cov("explanation", json!("resume mode (tail / head / after-id) x pre-history with or without an earlier instance of the same name (its registration traffic and output) x a second handler in the same context x bursts of 0/1/3 frames from two writers into the handler's context and another context while the handler is busy; the handler answers every frame with a per-instance counter, so its outputs give the complete invocation sequence, which is compared with the context's stream after the resume point minus own outputs and stale registration traffic. The interleaving of the burst with the handler is the OS's; the schedule dimension of the underlying stream is decided by C03 (all interleavings) and the start-up race by C16."));
+    report.cov("explanation", json!("resume mode (tail / head / after-id) x pre-history with or without an earlier instance of the same name (its registration traffic and output) x a second handler in the same context x bursts of 0/1/3 frames (durable, optionally mixed with ephemeral ones) from two writers into the handler's context and another context while the handler is busy x the after-id resume point (oldest frame / newest frame before registration / the very last frame / an id that belongs to another context); a frame carrying another handler's stamp is always part of the history; the handler answers every frame with a per-instance counter, so its outputs give the complete invocation sequence, which is compared with the context's stream after the resume point minus own outputs and stale registration traffic. The interleaving of the burst with the handler is the OS's; the schedule dimension of the underlying stream is decided by C03 (all interleavings) and the start-up race by C16."));
 }
 
 pub fn replay(v: &Value) -> i32 {
